@@ -51,6 +51,16 @@ TABLE = {
                 quick=[dict(n=8, blocks=25, maxtx=7)],
                 thorough=[dict(n=60, blocks=40, maxtx=8), dict(n=60, blocks=40, maxtx=8, seed_off=41)],
                 need=[("transfer", True), ("transfer", False), ("withdraw", True)]),
+    "C03": dict(directed=["mutation_matrix", "nonce_replay"],
+                directed_thorough=["mutation_matrix_full", "mutation_matrix", "nonce_replay"],
+                quick=[dict(n=4, blocks=20, maxtx=7)],
+                thorough=[dict(n=40, blocks=40, maxtx=8), dict(n=20, blocks=30, boundary=True)],
+                need=[("transfer", True), ("transfer", False), ("voting", True), ("proposal", True), ("setdoc", True), ("unstaking", True), ("withdraw", True)]),
+    "C19": dict(directed=["query_in_flight", "setdoc_and_accounts", "vote_window_edges", "forced_unbond"],
+                quick=[dict(n=6, blocks=20, extra=["-queries", "3", "-prestart", "0.15"])],
+                thorough=[dict(n=40, blocks=40, extra=["-queries", "4", "-prestart", "0.1"]),
+                          dict(n=40, blocks=40, seed_off=43, extra=["-queries", "4", "-prestart", "0.1"])],
+                need=[("transfer", True), ("staking", True)]),
 }
 
 ASSUME = [
@@ -69,7 +79,8 @@ def run(prop, tier, replay=None, mc=None):
         return v.finish("model_checking", {"states": 1, "transitions": 1, "traces_validated_against_impl": st["traces"],
                                            "samples": appcommon.sample_events(tr, 3) or [{"replay": replay}]})
     mcres = mc(tier) if mc else None
-    traces, sdirs, dst = appcommon.gen_traces(tier, cfg["directed"], cfg[tier])
+    directed = cfg.get("directed_thorough", cfg["directed"]) if tier == "thorough" else cfg["directed"]
+    traces, sdirs, dst = appcommon.gen_traces(tier, directed, cfg[tier])
     st = appcommon.collect(v, prop, traces, sdirs)
     missing = [k for k in cfg["need"] if tuple(k) not in st["kinds"]]
     if missing and not v.violations:
